@@ -331,15 +331,7 @@ func (e *endPoint) dispatch(msg *Message) error {
 			default:
 				ret = ErrConsumerBlocked
 				if msg.Header.Type == Call {
-					hdr := NewHeader(Error,
-						msg.Header.Service,
-						msg.Header.Object,
-						msg.Header.Action,
-						msg.Header.ID)
-					var buf bytes.Buffer
-					val := value.String(ret.Error())
-					val.Write(&buf)
-					e.Send(NewMessage(hdr, buf.Bytes()))
+					e.refuse(msg, ret)
 				}
 			}
 		}
@@ -349,6 +341,19 @@ func (e *endPoint) dispatch(msg *Message) error {
 		}
 	}
 	return ret
+}
+
+// refuse answers the call msg with an error message.
+func (e *endPoint) refuse(msg *Message, err error) error {
+	hdr := NewHeader(Error,
+		msg.Header.Service,
+		msg.Header.Object,
+		msg.Header.Action,
+		msg.Header.ID)
+	var buf bytes.Buffer
+	val := value.String(err.Error())
+	val.Write(&buf)
+	return e.Send(NewMessage(hdr, buf.Bytes()))
 }
 
 // process read all messages from the end point and dispatch them one
@@ -364,6 +369,13 @@ func (e *endPoint) process() {
 			return
 		}
 		err = e.dispatch(msg)
+		if (err == ErrNoMatch || err == ErrNoHandler) &&
+			msg.Header.Type == Call {
+			// nobody will answer this call (for example the
+			// object it addresses has been removed): the
+			// caller is told instead of waiting for ever.
+			e.refuse(msg, err)
+		}
 		if err != nil {
 			if msg.Header.Type == Error {
 				log.Printf("%s: %v, %s", err, msg.Header,
